@@ -77,6 +77,7 @@ func TestC03(t *testing.T) { ev.Check(t, "C03", "seq", genC03, Exec) }
 func genC09(t *rapid.T) Case {
 	c := Case{Prof: "c09", Roots: 1, MaxDir: 100}
 	c.Keys = GenKeys(t, 2, 4, false)
+	c.Workers = rapid.SampledFrom([]int{0, 0, 1, 8}).Draw(t, "workers")
 	dense := rapid.Bool().Draw(t, "denseGC")
 	gcw := 6
 	if dense {
